@@ -123,7 +123,7 @@ def run(ctx: Context) -> None:
     ctx.rule('R07.6', "meshes: one node-sharing ring per buffer step keeping the originals; kept edges / nodes are those of the kept faces' rows; every old-to-new table is numbered arange over a sorted, duplicate free index array", floor=10)
     from .common import adopt_foundations as _adopt
     _adopt(ctx, 'R07.7', ['geometry', 'topology', 'order'], floor=100)
-    ctx.assume("STRtree 'intersects' hit sets are monotone in the query geometry; numpy.nditer multi_index iterates in C order")
+    ctx.assume("STRtree 'intersects' hit sets are monotone in the query geometry; numpy.nditer(..., order='C') and numpy.ndindex visit positions in C order (the nditer default 'K' follows the memory layout instead)")
     ctx.assume("NOT decided by execution: agreement of blur_mask / smear_mask with their definition on all small arrays; R07.3/R07.4 are the symbolic counterpart for all sizes")
 
     # ------------------------------------------------------------------ R07.1
@@ -244,7 +244,12 @@ def run(ctx: Context) -> None:
                   construct='values = (arr[index] or numpy.any(padded[window(index)]) for index in indexes)')
         idx = [n for n in ast.walk(bm.node) if isinstance(n, ast.GeneratorExp) and norm_text(n.elt) == 'arr_iter.multi_index']
         it = [n for n in walk_no_nested(bm.node) if isinstance(n, ast.Assign) and norm_text(n.targets[0]) == 'arr_iter']
-        ok = len(idx) == 1 and bool(it) and norm_text(it[0].value) == f"numpy.nditer({arr_p}, ['multi_index'])"
+        itv = it[0].value if it else None
+        order = kwarg(itv, 'order') if isinstance(itv, ast.Call) else None
+        # nditer follows the memory layout unless told otherwise: the visit order must be pinned to C, the order of the final reshape
+        ok = (len(idx) == 1 and isinstance(itv, ast.Call) and callee(ctx, bm, itv) == 'numpy.nditer' and len(itv.args) >= 2
+              and norm_text(itv.args[0]) == arr_p and norm_text(itv.args[1]) == "['multi_index']"
+              and order is not None and const_value(order, None) == 'C')
         ctx.check('R07.3', ok, "cells are visited once each in the array's C iteration order", bm, it[0] if it else bm.node)
         fr = [c for c in calls_in(bm) if callee(ctx, bm, c) == 'numpy.fromiter']
         ok = False
@@ -387,6 +392,7 @@ _A = 'src/emsarray/conventions/arakawa_c.py'
 _U = 'src/emsarray/conventions/ugrid.py'
 _M = 'src/emsarray/masking.py'
 VARIANTS = [
+    V('C07', 'blur-visits-in-memory-order', 'src/emsarray/masking.py', "numpy.nditer(arr, ['multi_index'], order='C')", "numpy.nditer(arr, ['multi_index'])", 'R07.3'),
     V('C07', 'cf-predicate-within', _G, "        intersecting_indexes = self.strtree.query(clip_geometry, predicate='intersects')", "        intersecting_indexes = self.strtree.query(clip_geometry, predicate='within')", 'R07.1'),
     V('C07', 'ugrid-predicate-contains', _U, "        face_indexes = self.strtree.query(clip_geometry, predicate='intersects')", "        face_indexes = self.strtree.query(clip_geometry, predicate='contains')", 'R07.1'),
     V('C07', 'arakawa-envelope', _A, "        intersecting_indexes = self.strtree.query(clip_geometry, predicate='intersects')", "        intersecting_indexes = self.strtree.query(clip_geometry.envelope, predicate='intersects')", 'R07.1'),
